@@ -118,6 +118,21 @@ def replay(hist, *, stop, adapter, unit="seconds", compress=False, srv=None, tea
                         bad["faithful_prediction"] = h["rows"]
                     elif probe:
                         bad = do_probe()
+            elif op in ("StreamOpen", "StreamNext", "StreamClose"):
+                sc = sess.get(h["i"], "base")
+                if op == "StreamOpen":
+                    st, d = srv.stream_open(h["i"], h["set"], sc)
+                elif op == "StreamNext":
+                    st, d = srv.stream_next(h["i"])
+                else:
+                    st, d = srv.stream_close(h["i"])
+                if (st == 200) != (h["status"] == 200):
+                    bad = mism("stream-steps status (%s)" % op, h["status"], (st, d))
+                elif st == 200 and op != "StreamClose":
+                    want = h.get("want", h["row"])
+                    got = S.row_of(d, sc, srv.two)
+                    if not _row_eq(want, got):
+                        bad = mism("stream-steps result (%s)" % op, want, got)
             elif op == "Results":
                 sc = sess.get(h["i"], "base")
                 st, d = srv.req("GET", "/%s/session-results" % srv.uid(h["i"]))
